@@ -50,6 +50,9 @@ def gen_file(rng):
         secs["Table-Form:tab"] = [["x", "0 1 2 3 4"], ["y", "4 3 2 1 0"]]
     if rng.random() < 0.3:
         secs["Notes"] = [["author", "someone"], ["A-B", "orphan key that looks like a pair"]]
+    if rng.random() < 0.15:
+        # a section called exactly [Table-Form] (no :NAME): nothing reads it, but its items are items of the file
+        secs["Table-Form"] = [["x", "1 2"], ["remark", "no name given"]][: rng.randint(1, 2)]
     if rng.random() < 0.35:
         # a known section whose items are neither potentials nor forms ([Species]): its items are items of the file like any other (seed C14_6)
         sp = rng.choice(species)
